@@ -18,6 +18,7 @@ struct FeCfg {
     double wlen = 0.025625, upperf = 6855.4976, lowerf = 133.33334;
     std::string transform = "legacy";
     bool remove_noise = true, remove_dc = false, logspec = false, smoothspec = false, round_filters = true, unit_area = true, doublebw = false, big_endian = false;
+    double alpha = 0.97;
     int S() const { return (int)(wlen * samprate + 0.5); }
     int H() const { return (int)((double)samprate / frate + 0.5); }
 };
@@ -43,6 +44,7 @@ static FeCfg cfg_from(const Json &j)
     c.unit_area = j.getb("unit_area", true);
     c.doublebw = j.getb("doublebw", false);
     c.big_endian = j.getb("big_endian", false);
+    c.alpha = j.getd("alpha", 0.97);
     return c;
 }
 
@@ -67,6 +69,7 @@ static Json cfg_json(const FeCfg &c)
     j.set("unit_area", c.unit_area);
     j.set("doublebw", c.doublebw);
     j.set("big_endian", c.big_endian);
+    j.set("alpha", c.alpha);
     return j;
 }
 
@@ -92,6 +95,7 @@ static fe_t *make_fe(const FeCfg &c)
     config_set_bool(cf, "doublebw", c.doublebw);
     config_set_bool(cf, "dither", 0);
     config_set_str(cf, "input_endian", c.big_endian ? "big" : "little");
+    config_set_float(cf, "alpha", c.alpha);
     fe_t *fe = fe_init(cf);
     config_free(cf);
     return fe;
@@ -187,7 +191,7 @@ struct FeWorld : World {
         static const std::vector<std::string> tr = { "legacy", "legacy", "dct", "htk" };
         c.transform = r.pick(tr);
         c.lifter = r.chance(0.3) ? 22 : 0;
-        static const std::vector<int> nf = { 20, 25, 31, 40, 40 };
+        static const std::vector<int> nf = { 20, 25, 31, 40, 40, 60, 90 }; // (60 and 90: denser than the FFT resolution at the low end)
         c.nfilt = r.pick(nf);
         static const std::vector<int> nc = { 8, 13, 13, 13, 20 };
         c.ncep = std::min(r.pick(nc), c.nfilt);
@@ -205,6 +209,7 @@ struct FeWorld : World {
         c.unit_area = r.chance(0.8);
         c.doublebw = r.chance(0.1);
         c.big_endian = r.chance(0.15);
+        c.alpha = r.chance(0.12) ? 0.0 : (r.chance(0.1) ? 0.5 : 0.97); // 0: the frame is copied without pre-emphasis (another code path)
         plan.set("cfg", cfg_json(c));
         plan.set("rebuffer", (long long)r.below(3)); // 0 never, 1 always, 2 randomly per call
         int H = c.H();
